@@ -106,6 +106,50 @@ func judge(p docgen.Plan, o *vh.Obs) {
 			}
 		}
 	}
+	// currency conversion, judged without the stepwise model: the presented item
+	// price is the exact product rounded to the document currency (allowing the
+	// documented intermediate rounding at the finer of the two precisions)
+	for i, l := range p.Lines {
+		if l.ItemCurrency == "" || l.ItemCurrency == env.Currency || l.Price == "" || len(l.Breakdown) > 0 {
+			continue
+		}
+		alt := false
+		for _, ap := range l.AltPrices {
+			if ap.Currency == env.Currency {
+				alt = true
+			}
+		}
+		if alt {
+			continue
+		}
+		for _, r := range p.Rates {
+			if r.From != l.ItemCurrency || r.To != env.Currency {
+				continue
+			}
+			o.Class("converted-price")
+			exact := mulr(rat(l.Price), rat(r.Amount))
+			obs, ok := out.Figures[fmt.Sprintf("lines[%d].item.price", i)]
+			if !ok {
+				break
+			}
+			d, err := ratref.ParseDec(obs)
+			if err != nil {
+				break
+			}
+			fine := env.C
+			if pd, err := ratref.ParseDec(l.Price); err == nil && pd.Exp > fine {
+				fine = pd.Exp
+			}
+			lim := new(big.Rat).SetFrac(big.NewInt(1), new(big.Int).Mul(big.NewInt(2), ratref.Pow10(env.C)))
+			lim.Add(lim, new(big.Rat).SetFrac(big.NewInt(1), new(big.Int).Mul(big.NewInt(2), ratref.Pow10(fine))))
+			diff := new(big.Rat).Sub(d.Rat(), exact)
+			if diff.Abs(diff).Cmp(lim) > 0 {
+				o.Failf("exact:converted-price", "line %d: %s %s at rate %s is %s, presented as %s %s", i, l.Price, l.ItemCurrency, r.Amount, exact.FloatString(env.C+4), obs, env.Currency)
+				return
+			}
+			break
+		}
+	}
 	// presented totals carry exactly the currency's decimals
 	for path, v := range out.Figures {
 		if strings.HasPrefix(path, "totals.") && !strings.HasSuffix(path, ".percent") && !strings.HasSuffix(path, ".code") &&
@@ -350,7 +394,7 @@ func init() {
 		"Cases are document plans (invoice / order / delivery) drawn by internal/docgen over every registered regime: 0-6 lines (thorough: up to 24), quantities and prices of either sign with 0-6 decimals biased to digits on rounding boundaries (x.5 quantities, odd last digits, 50%/5%/12.5% percentages), breakdown and substituted sub-lines, fixed / percentage / percentage-of-base line and document discounts and charges, rate-and-quantity charges, foreign-currency items with exchange rates or alternative prices, advances and due dates by percentage or amount, tax-included prices, both rounding rules and regime defaults, currencies with 0, 2 and 3 decimals. Each is parsed and calculated by gobl from its JSON text and compared (1) figure by figure with the reference calculator (exact decimals, explicit half-away rounding at the documented points, family of admissible working precisions) and (2) with a separately written formula-level exact evaluation under a propagated admissible-error bound. Non-trivial: at least one rounding step discarded a non-zero remainder. Documents gobl refuses to calculate and documents leaving the 2^52 exactness domain are discarded and counted.",
 		"percentages of keyed tax rates are read from the calculated document (rate selection is property C12)",
 		"values are kept inside the float64 exactness domain of property C05",
-		"currency conversion follows currency.ExchangeRate.Convert as documented: product rounded at the price's precision, then to the destination currency",
+		"currency conversion: product at the finer of the price's and the destination currency's precision, then rounded to the destination currency (also judged against the exact product)",
 	)
 	vh.Rapid("documents", 24_000, 1_600_000, func(t *rapid.T) docgen.Plan { return docgen.GenPlan(t, docgen.Opts{MaxLines: pickMax()}) }, judge)
 	vh.Rapid("invoices_precise", 8_000, 480_000, func(t *rapid.T) docgen.Plan {
